@@ -32,9 +32,11 @@ def bounds(tier):
 
 def configs(tier, seed):
     out = []
-    K, F = (2, 3) if tier == "quick" else (3, 3)
+    F = 3
     for cand in ("fixed_window", "local_queues"):
         for matching in ("hungarian", "greedy"):
+            # three animals only with the Hungarian matcher: greedy sorts all K*K symbolic scores per frame and exceeded 60000 paths after 27 min
+            K = 3 if (tier == "thorough" and matching == "hungarian") else 2
             out.append(dict(kind="history", K=K, F=F, cand=cand, matching=matching, reduction="mean", window=F + 1, thr=0.0))
             out.append(dict(kind="history", K=K, F=F, cand=cand, matching=matching, reduction="max", window=2, thr=0.0))
             if tier == "thorough":
